@@ -156,6 +156,138 @@ def volatility_rule(ctx):
     ctx.check("CANARY volatility ignores the interval", ctx.close(vol * vol, sd * sd * 365, rel=1e-9, abs_=1e-18) if ctx.sym else abs(vol - sd * math.sqrt(365)) <= 1e-12)
 
 
+# ------------------------------------------------------------------------------------------------------------------
+# performance_metrics: the wiring around the kernels is decided by the solver for EVERY sampling interval.
+# The net-value series is a stand-in object whose index holds symbolic time stamps (nanoseconds as a z3 Int, with the
+# pandas Timedelta attribute semantics: .value = total ns, .seconds = seconds WITHIN the day, .days = whole days); the
+# metric kernels are replaced by recorders, so what is proved is that each kernel is handed the right interval, duration
+# and end points.  The concrete run does the same on a real pandas Series / DatetimeIndex.
+
+NS = 10**9
+
+
+class _Td:
+    def __init__(self, ns):
+        self.ns = ns
+
+    value = property(lambda self: self.ns)
+    days = property(lambda self: self.ns // (86400 * NS))
+    seconds = property(lambda self: (self.ns // NS) % 86400)
+    microseconds = property(lambda self: (self.ns // 1000) % 10**6)
+    nanoseconds = property(lambda self: self.ns % 1000)
+
+    def total_seconds(self):
+        return self.ns / 1e9
+
+    def __add__(self, o):
+        return _Td(self.ns + o.ns) if isinstance(o, _Td) else NotImplemented
+
+    def __sub__(self, o):
+        return _Td(self.ns - o.ns) if isinstance(o, _Td) else NotImplemented
+
+    def __truediv__(self, o):
+        return self.ns / o.ns if isinstance(o, _Td) else NotImplemented
+
+
+class _Stamp:
+    def __init__(self, ns):
+        self.ns = ns
+
+    def __sub__(self, o):
+        return _Td(self.ns - o.ns) if isinstance(o, _Stamp) else _Stamp(self.ns - o.ns)
+
+    def __add__(self, o):
+        return _Stamp(self.ns + o.ns)
+
+
+class _Dropped:
+    def __init__(self, tag):
+        self.tag = tag
+
+    def dropna(self):
+        return self.tag
+
+
+class _SeriesStub:
+    """what performance_metrics touches of a pandas Series: apply, iloc, index, len, pct_change().dropna()"""
+
+    def __init__(self, vals, index):
+        self.vals, self.index = list(vals), list(index)
+        self.iloc = self.vals
+
+    def apply(self, f):
+        return _SeriesStub([f(x) for x in self.vals], self.index)
+
+    def __len__(self):
+        return len(self.vals)
+
+    def pct_change(self):
+        return _Dropped(("pct_change.dropna", self))
+
+
+def pm_wiring(ctx):
+    import demeter.result.metrics.core as core
+    from demeter.result.metrics._typing import MetricEnum
+
+    n = ctx.p["n"]
+    v = _vals(ctx, n)
+    isec = ctx.int_("interval_seconds", 60, 45 * 86400)  # one minute ... 45 days between samples
+    calls = {}
+
+    def rec(name, ret):
+        def f(*a, **k):
+            calls[name] = (a, k)
+            return ret
+
+        return f
+
+    saved = {k: getattr(core, k) for k in ("volatility", "sharpe_ratio", "annualized_return", "max_draw_down", "return_rate", "return_value")}
+    for k in saved:
+        setattr(core, k, rec(k, ("ret", k)))
+    try:
+        if ctx.sym:
+            s = _SeriesStub(v, [_Stamp(isec * NS * i) for i in range(n)])
+            pm = core.performance_metrics(s)
+            dur_ns = pm[MetricEnum.duration].ns
+        else:
+            import pandas as pd
+
+            idx = pd.DatetimeIndex([pd.Timestamp("2023-01-01") + pd.Timedelta(seconds=int(isec) * i) for i in range(n)])
+            s = pd.Series([float(x) for x in v], index=idx)
+            try:
+                pm = core.performance_metrics(s)
+            except ZeroDivisionError:
+                ctx.outcome("crashed")
+                ctx.check("performance_metrics: sampling interval handed to volatility == time between the first two samples, in days", False)
+                return
+            dur_ns = pm[MetricEnum.duration].value
+    finally:
+        for k, f in saved.items():
+            setattr(core, k, f)
+    ctx.outcome("computed")
+    iday = isec / 86400 if not ctx.sym else isec / 86400.0
+    dday = iday * n  # the property's duration: number of samples x sampling interval (end - start + one interval)
+
+    def eq(a, b):
+        return ctx.close(a, b, rel=1e-12, abs_=1e-15)
+
+    (va, _k) = calls["volatility"]
+    ctx.check("performance_metrics: sampling interval handed to volatility == time between the first two samples, in days", eq(va[1], iday))
+    (sa, _k) = calls["sharpe_ratio"]
+    ctx.check("performance_metrics: sampling interval handed to the Sharpe ratio == time between the first two samples, in days", eq(sa[0], iday))
+    ctx.check("performance_metrics: duration handed to the Sharpe ratio == samples x interval, in days", eq(sa[1], dday))
+    ctx.check("performance_metrics: risk-free rate handed on unchanged", sa[3] == 0.03)
+    (aa, _k) = calls["annualized_return"]
+    ctx.check("performance_metrics: duration handed to the annualised return == samples x interval, in days", eq(aa[0], dday))
+    ctx.check("performance_metrics: annualised return is taken between the first and the last net value", sand(eq(aa[1], v[0]), eq(aa[2], v[-1])))
+    (ra, _k) = calls["return_rate"]
+    ctx.check("performance_metrics: return rate is taken between the first and the last net value", sand(eq(ra[0], v[0]), eq(ra[1], v[-1])))
+    ctx.check("performance_metrics: reported duration == samples x interval", dur_ns == isec * NS * n)
+    ctx.check("performance_metrics: every kernel's result is reported under its own key", all(pm[getattr(MetricEnum, k)] == ("ret", k) for k in saved))
+    ctx.check("CANARY interval is always one day", eq(va[1], 1.0))
+
+
+
 def _witness_int_series(ctx, v, dur):
     """NOT solver-decided: the return functions on an integer-dtype net-value series (numpy dtype rules are outside the proxies)"""
     import pandas as pd
@@ -227,4 +359,6 @@ def scenarios(tier):
     out.append(Scenario("volatility/annualisation_rule", volatility_rule, shadows=SHADOWS, entry=("volatility",), canary="CANARY volatility ignores the interval"))
     for n in (2, 3, 4) if tier == "quick" else (2, 3, 4, 5):
         out.append(Scenario(f"returns/n{n}", returns, params=dict(n=n), shadows=SHADOWS, entry=("return_rate", "return_rate_series", "return_multiple", "annualized_return", "return_value"), canary="CANARY total return is zero", witness_cap=12))
+    for n in (2, 3) if tier == "quick" else (2, 3, 5):
+        out.append(Scenario(f"performance_metrics/wiring/n{n}", pm_wiring, params=dict(n=n), shadows=SHADOWS, entry=("performance_metrics",), canary="CANARY interval is always one day", nlsat=False))
     return out
